@@ -37,9 +37,20 @@ def _rewrite_func(match):
 
 
 def osc_rematch_pattern(pattern, address):
-    pattern = re.sub(_rewrite_pattern, _rewrite_func, pattern)
+    # Each part of the pattern has to match the corresponding part of the
+    # address, no construct (e.g. the range [!-~]) matches across '/'.
+    pattern_parts = pattern.split('/')
+    address_parts = address.split('/')
+    if len(pattern_parts) != len(address_parts):
+        return False
     try:
-        return re.fullmatch(pattern, address) is not None
+        for ppart, apart in zip(pattern_parts, address_parts):
+            if ',' in re.sub(r'\{[^{}]*\}', '', ppart):
+                return False  # ',' is only valid within braces.
+            ppart = re.sub(_rewrite_pattern, _rewrite_func, ppart)
+            if re.fullmatch(ppart, apart) is None:
+                return False
+        return True
     except re.error:
         return False  # A malformed address pattern matches nothing.
 
